@@ -9,7 +9,7 @@ THEOREMS = [
     ('EAO.Properties.C01', 'EAO.C01.nodal_balance_split', 'the same for the concatenation of interval solutions of a split problem, at original step indices'),
     ('EAO.Properties.C01', 'EAO.C01.nodal_balance_structured', 'a structured asset (inner portfolio assembled with its external nodes skipped, inner nodes renamed and typed internal) is a well-formed asset whose dispatch rows sit at external nodes only, so balance holds at the outer nodes; inner balance holds by the inner nodal rows'),
 ]
-COMPONENTS = ['assemble (mapping, nodal rows, nodal list) on captured real asset problems', 'readout.dispatch vs io.extract_output']
+COMPONENTS = ['hypotheses of the assembly theorems (well-formedness of asset problems) evaluated on every captured real asset problem', 'assemble (mapping, nodal rows, nodal list) on captured real asset problems', 'readout.dispatch vs io.extract_output']
 RULE = ('random portfolios (1-3 nodes, 2-8 assets of 12 kinds, windows, coarse frequency, periodicity, wacc, time zones); mono and split; '
         'non-trivial = solved scenario with at least one (node, step) where >= 2 assets have non-zero dispatch; distinct by scenario hash')
 ASSUMPTIONS = ['solver returns a point feasible within 1e-6 (checked by the C03 oracle); oracle tolerance 2e-6 * dispatch scale']
@@ -48,6 +48,8 @@ def run_case(scn, drv):
     except Exception as e:
         feats.append('setup-error:' + impl.err_class(e))
         return r
+    r['disagreements'] += pf.hyp_wf(rec)
+    feats.append('hypotheses-evaluated')
     r['disagreements'] += pf.corr_assemble(rec, drv, aspects=('mapping', 'nodalrows', 'nodal'))
     pf.solve_rec(rec)
     if isinstance(rec['res'], str):
